@@ -535,19 +535,20 @@ size_t derTUINTEnc(octet der[], u32 tag, const octet* val, size_t len)
 		--len;
 	// установлен старший бит V => дополнительный нулевой октет
 	ex = (val[len - 1] & 128) ? 1 : 0;
-	// кодировать T и L
-	tl_count = derTLEnc(der, tag, len + ex);
+	// длина T и L
+	tl_count = derTLEnc(0, tag, len + ex);
 	if (tl_count == SIZE_MAX)
 		return SIZE_MAX;
-	// кодировать V
+	// кодировать V, затем T и L (буферы der и val могут пересекаться)
 	if (der)
 	{
 		ASSERT(memIsValid(der, tl_count + len + ex));
-		der += tl_count;
-		memCopy(der, val, len);
+		memMove(der + tl_count, val, len);
 		if (ex)
-			der[len] = 0;
-		memRev(der, len + ex);
+			der[tl_count + len] = 0;
+		memRev(der + tl_count, len + ex);
+		if (derTLEnc(der, tag, len + ex) != tl_count)
+			return SIZE_MAX;
 	}
 	return tl_count + len + ex;
 }
